@@ -1,6 +1,7 @@
 package values
 
 import (
+	"fmt"
 	"math"
 	"reflect"
 	"strings"
@@ -241,11 +242,17 @@ func MapEntry(m reflect.Value, key any) reflect.Value {
 		}
 		// the key may be held as another type
 		if k := reflect.ValueOf(ToLiquid(key)).Kind(); isIntKind(k) || isFloatKind(k) || k == reflect.String {
+			// (should several keys have this value, the choice must not depend on the order of iteration)
+			var found reflect.Value
+			var foundType string
 			for iter := m.MapRange(); iter.Next(); {
-				if Equal(iter.Key().Interface(), key) {
-					return iter.Value()
+				if k := iter.Key().Interface(); Equal(k, key) {
+					if t := fmt.Sprintf("%T", k); !found.IsValid() || t < foundType {
+						found, foundType = iter.Value(), t
+					}
 				}
 			}
+			return found
 		}
 		return reflect.Value{}
 	}
